@@ -280,14 +280,15 @@ type monitor struct {
 	workCap    uint64
 	nframes    uint64
 
-	lastDepth  int
-	frames     []frameInfo
-	pending    []*site
-	probeDepth int // depth of the running decimals() probe frame, 0 = none
-	probes     int
-	probeGas0  uint64 // gas the running probe frame started with
-	probeCur   uint64 // gas the running probe frame has consumed so far
-	uncharged  uint64 // gas consumed by finished probe frames (nobody is charged for it)
+	lastDepth       int
+	frames          []frameInfo
+	pending         []*site
+	probeDepth      int // depth of the running decimals() probe frame, 0 = none
+	probes          int
+	probesUncharged int
+	probeGas0       uint64 // gas the running probe frame started with
+	probeCur        uint64 // gas the running probe frame has consumed so far
+	uncharged       uint64 // gas consumed by finished probe frames (nobody is charged for it)
 
 	snapshots      int
 	snapshotBudget int
@@ -383,6 +384,11 @@ func (m *monitor) step(env *evm.EVM, pc uint64, op evm.OpCode, gas, cost uint64,
 	if err != nil {
 		m.mix(0xe44)
 	}
+	if sd := stack.Data(); len(sd) > 0 {
+		// what the previous instruction produced (low 64 bits and size of the top word)
+		t := sd[len(sd)-1]
+		m.mix(t.Uint64() ^ uint64(t.BitLen())<<56 ^ uint64(len(sd))<<44)
+	}
 	ts := &m.tail[m.tailN%len(m.tail)]
 	ts.Depth, ts.PC, ts.Op, ts.Gas, ts.Err = depth, pc, "", gas, ""
 	ts.Op = op.String()
@@ -407,15 +413,21 @@ func (m *monitor) step(env *evm.EVM, pc uint64, op evm.OpCode, gas, cost uint64,
 		m.probeCur = 0
 	}
 	if newFrame {
+		prevGas, hadPrev := fr.lastGas, fr.c != nil && depth <= m.lastDepth // a frame at this depth has just ended
 		fr.c = contract
 		fr.lastGas = gas
 		m.nframes++
 		m.work += 40 // a frame costs the harness far more than a step
-		if m.probeDepth == 0 && contract.CallerAddress == (common.Address{}) && bytes.Equal(contract.Input, rateData) {
-			// the chain's own decimals() static call after a successful ISSUE (GetUTXOChangeRate): its caller is the zero address
-			m.probeDepth = depth
+		if m.probeDepth == 0 && hadPrev && contract.CallerAddress == (common.Address{}) && bytes.Equal(contract.Input, rateData) {
+			// the chain's own decimals() static call in the epilogue of a frame that executed ISSUE
+			// (GetUTXOChangeRate): its caller is the zero address and no instruction of a caller precedes it
 			m.probes++
-			m.probeGas0 = gas
+			if gas > prevGas {
+				// it starts with more gas than the issuing frame had left, so that frame is not paying for it
+				m.probeDepth = depth
+				m.probeGas0 = gas
+				m.probesUncharged++
+			}
 		}
 		if n := len(m.pending); n > 0 && m.pending[n-1].depth == depth-1 && m.probeDepth == 0 {
 			s := m.pending[n-1]
